@@ -4,6 +4,7 @@ EXTENDS Deploy
 
 NoDev      == {}
 IndexShift == {"IndexShift"}
+Sticky     == {"StickyPending"}
 NoAbsent   == {}
 Absent1    == {1}
 AbsentLast == {N - 1}
